@@ -147,6 +147,12 @@ func compilerBCE(dir, pkg string, overlay map[string][]byte) ([]bceReport, error
 		os.WriteFile(ov, []byte(b.String()), 0o644)
 		args = append(args, "-overlay", ov)
 	}
+	// as in load(): the go command must never rewrite the analysed tree's go.mod (it does, under -mod=mod, when a
+	// variant imports a package of an indirect dependency directly)
+	if mf, cleanup := scratchModfile(dir); mf != "" {
+		defer cleanup()
+		args = append(args, "-modfile="+mf)
+	}
 	args = append(args, "./"+pkg)
 	cmd := exec.Command("go", args...)
 	cmd.Dir = dir
